@@ -95,7 +95,9 @@ struct AModel
         }
         for (auto c : {c1, c2, d1}) {
             ent("comp:" + c->name(), "COMPONENT", c, [c](const AnnotatorPtr &a) { return a->assignId(c, CellmlElementType::COMPONENT); }, [c](const AnyCellmlElementPtr &x) { return x->type() == CellmlElementType::COMPONENT && x->component() == c; });
-            if (c != d1) { // d1 takes no part in the encapsulation hierarchy
+            // (d1 takes no part in the encapsulation hierarchy: no component_ref element is written for it and assignIds need not
+            //  give it one, but the object can carry an encapsulation id - "cref:d1" is an id present in the model, like "math")
+            {
                 items.push_back({"cref:" + c->name(), "COMPONENT_REF", [c]() { return c->encapsulationId(); }, [c](const std::string &s) { c->setEncapsulationId(s); }, nullptr,
                                  [c](const AnnotatorPtr &a) { return a->assignId(c, CellmlElementType::COMPONENT_REF); },
                                  [c](const AnyCellmlElementPtr &x) { return x->type() == CellmlElementType::COMPONENT_REF && x->component() == c; }});
